@@ -10,7 +10,8 @@ EXPLANATION = ("Decides narrow structural clauses of C07, not key validity: in S
                "produced on the branch of the same can_sign field that sets the sign flag, wrapped in Some and returned with the subkey; the "
                "subkey-binding helper pushes an EmbeddedSignature subpacket into the hashed area on the Some edge; the builder validates "
                "before building; the sign side applies the key/signature version alignment guards (shared with C15). Not decided: anything "
-               "value-dependent (leading-zero MPIs/scalars, re-import equality, usability).")
+               "value-dependent (leading-zero MPIs/scalars, re-import equality, usability)."
+               ' Also: certificate assembly (metadata table from the requested fields, v6 direct-key signature, user-id self-signature arms, IsPrimary on every path), back-signature made before locking, builder validation treats an unset version like the default, and (shared with C05) R-len over key-material types plus stored-header freshness.')
 ASSUMPTIONS = ["derive_builder expands build() as written in the crate's configuration"]
 
 GEN = 'composed::key::builder::SecretKeyParams::generate'
